@@ -85,8 +85,11 @@ class ReportLuns(SCSICommand):
             result[:4] = scsi_int_to_ba(len(result) - 8, 4)
             return result
 
-        for l in data["luns"]:
+        for i, l in enumerate(data["luns"]):
             _r = bytearray(8)
+            if "lun" not in l and "lun%s" % i in l:
+                # the key unmarshall_datain reports for the i-th entry
+                l = {"lun": l["lun%s" % i]}
             encode_dict(l, cls._datain_bits, _r)
 
             result += _r
